@@ -24,8 +24,11 @@ SPEC = {
              "Oracle on every read: packets out = [f | the link type's top-level parser accepts f and pcap_offline_filter(harness-compiled program, f)], "
              "in order, same class, same bytes (serialization equal to that of the packet parsed directly from the frame; equal to the frame itself "
              "for the fixpoint frames and in extract_raw mode), same seconds/microseconds; stable clean end of file; no exception out of any reader; "
-             "no ASan/UBSan report. OfflinePacketFilter (original, copy-constructed, assigned; buffer and PDU overloads) = pcap_offline_filter on "
-             "every frame; expressions libpcap rejects for a link type must be refused (invalid_pcap_filter / false). "
+             "no ASan/UBSan report. OfflinePacketFilter value-semantics generations per expression (original, copy, copy of a copy, assigned from a copy "
+             "of a copy, original assigned over an object holding another expression, copy of an assignment chain, elements of a std::vector after 3 "
+             "push_backs, of a copied vector and of a vector assigned from it; every source destroyed before use; buffer overload on all, PDU "
+             "overload on the original) = pcap_offline_filter for ITS expression on "
+             "every frame; SnifferConfiguration is used through a copy of a copy assigned over a configuration with other settings; expressions libpcap rejects for a link type must be refused (invalid_pcap_filter / false). "
              "evaluations = file reads judged; distinct_nontrivial = distinct (link type, filter, per-frame accept/skip pattern) with at least "
              "one accepted and one skipped frame."),
     "claim": ("Every frame sequence up to the length bound over the alphabet is a file that was written, read by every reader and judged; "
